@@ -144,11 +144,53 @@ def runtime_traces(ctx: Ctx, rng, tid0: int, n: int):
     return out
 
 
+def apalache_all_temperatures(ctx: Ctx, cov: dict):
+    """Rates.tla for EVERY integer temperature and every choice of cut points (APA_Rates.tla, symbolic constants); two mutated copies of
+    the window definition must fail (vacuity guard).  TLC stays the deciding tool for the bounded instances and all traces."""
+    import shutil
+    import subprocess
+    from concurrent.futures import ThreadPoolExecutor
+    from common import SPEC
+    if not shutil.which("apalache-mc"):
+        ctx.notes.append("apalache-mc not on PATH: the all-temperatures check of Rates.tla was skipped")
+        return
+    variants = {"asis": None, "closed_upper_bound": ("(tmax <= 0 \\/ t < tmax)", "(tmax <= 0 \\/ t <= tmax)"),
+                "zero_is_a_bound": ("(tmin <= 0 \\/ t >= tmin)", "(tmin < 0 \\/ t >= tmin)")}
+
+    def one(item):
+        name, sub = item
+        d = ctx.sub(f"apa_rates_{name}")
+        txt = (SPEC / "Rates.tla").read_text()
+        if sub:
+            if sub[0] not in txt:
+                raise MachineryError(f"APA_Rates variant {name}: text to mutate not found")
+            txt = txt.replace(sub[0], sub[1])
+        (d / "Rates.tla").write_text(txt)
+        shutil.copy(SPEC / "APA_Rates.tla", d / "APA_Rates.tla")
+        p = subprocess.run(["apalache-mc", "check", "--cinit=ConstInit", "--init=Init", "--next=Next", "--inv=Inv", "--length=6", f"--out-dir={d / 'out'}",
+                            "APA_Rates.tla"], cwd=d, capture_output=True, text=True, timeout=1200)
+        out = p.stdout + p.stderr
+        return name, "EXITCODE: OK" in out, "The outcome is: Error" in out, out[-1200:]
+    with ThreadPoolExecutor(3) as ex:
+        res = list(ex.map(one, variants.items()))
+    for name, ok, cex, tail in res:
+        if not ok and not cex:
+            raise MachineryError(f"apalache did not decide APA_Rates/{name}: {tail}")
+        if name == "asis" and not ok:
+            ctx.violation("C06|Design|AllTemperatures", "Apalache: with symbolic cut points and temperature the window semantics of Rates.tla fail", {"apalache": tail})
+        if name != "asis" and ok:
+            raise MachineryError(f"vacuity guard: mutated window definition {name} passes APA_Rates")
+    cov["all_integer_temperatures_and_cut_points"] = "Apalache 0.58, APA_Rates.tla: 3 adjacent pieces + unbounded + lower-bound-only, symbolic c1<c2<c3<c4 and t0"
+    cov["apalache_window_variants_rejected"] = 2
+
+
 def main(ctx: Ctx) -> int:
     import_naunet()
     from naunet.network import Network
     pid = ctx.pid
     cov: dict = {"samples": []}
+    if pid == "C06":
+        apalache_all_temperatures(ctx, cov)
     r = run_tlc("MC_Rates.tla", "MC_Rates.cfg", ctx.sub("meta") / "mc", workers=16)
     require_clean_mc(r, "MC_Rates")
     if r["error"]:
